@@ -101,6 +101,7 @@ def run(rep):
     if not hits:
         return
     q, it, _s = hits[0]
+    it_flat = E.flatten(it)
     f = crate.fns[q]
     where = f"{crate.relfile(f['file'])} fn {f['name']} (template at {it[1]})"
     summ = ogp.summaries[q]
@@ -142,13 +143,13 @@ def run(rep):
     SNAME = ('call', 'Ident::new', [('unwrap', ('f', argty, 'name'))])
     members = ('vf', ('f', argty, 'inner'), 'naga::TypeInner::Struct', 'members')
     # template holes
-    txt = E.tmpl_text(it)
-    nm = hole_after_seq(it, 'impl')
+    txt = E.tmpl_text(it_flat)
+    nm = hole_after_seq(it_flat, 'impl')
     rep.check(nm == SNAME, 'C07.A.struct-name', 'impl-name', where, f'impl block is for {E.show(nm, maxdepth=6)}; expected the argument struct\'s own name', ok_detail='impl <struct name>')
-    sz = hole_after_seq(it, 'array_stride : std :: mem :: size_of ::<')
+    sz = hole_after_seq(it_flat, 'array_stride : std :: mem :: size_of ::<')
     rep.check(sz == SNAME and 'array_stride : std :: mem :: size_of ::< #' in txt and '> ( ) as u64' in txt, 'C07.A.stride', 'stride', where,
               f'array_stride is not size_of::<this struct>() ({E.show(sz, maxdepth=5) if sz else None})', ok_detail='array_stride = size_of::<struct>() as u64')
-    va = hole_after_seq(it, 'attributes : &')
+    va = hole_after_seq(it_flat, 'attributes : &')
     rep.check(va == SNAME and ':: VERTEX_ATTRIBUTES' in txt, 'C07.A.struct-name', 'attributes-ref', where, 'attributes does not refer to this struct\'s VERTEX_ATTRIBUTES', ok_detail='&<struct>::VERTEX_ATTRIBUTES')
     rep.check('step_mode : wgpu :: VertexStepMode ) ->' in txt and ', step_mode ,' in txt.replace('step_mode , attributes', ', step_mode , attributes'), 'C07.A.step-mode', 'step-mode', where,
               'vertex_buffer_layout does not pass the caller\'s step_mode through', ok_detail='step_mode forwarded')
@@ -184,7 +185,7 @@ def run(rep):
     rep.check(o1 == SNAME and okf and ') as u64' in attxt, 'C07.A.offset', 'offset', where,
               f'offset is offset_of!({E.show(o1, maxdepth=4) if o1 else None}, {E.show(o2, maxdepth=5) if o2 else None}); expected (this struct, this member\'s name)',
               ok_detail='offset_of!(struct, member.name) as u64')
-    cnt = hole_after_seq(it, '[ wgpu :: VertexAttribute ;')
+    cnt = hole_after_seq(it_flat, '[ wgpu :: VertexAttribute ;')
     okc = cnt is not None and cnt[0] == 'call' and cnt[1].startswith('Literal::') and cnt[2][0][0] == 'mcall' and cnt[2][0][2] == 'len' and same_star(cnt[2][0][1], a)
     rep.check(okc, 'C07.A.count', 'attribute-count', where, f'the attribute array length is {E.show(cnt, maxdepth=5) if cnt else None}; expected the length of the same attribute list', ok_detail='len(same list)')
     # ---- B: format table ----------------------------------------------------------------------------------------------------------
@@ -217,6 +218,7 @@ def run(rep):
     eh = E.repetition_anchor(ogp, lambda t: '-> VertexEntry < #' in E.tmpl_text(t))
     rep.floor('vertex entry helper template', len(eh), 1)
     for q2, ht, _s2 in eh[:1]:
+        ht_flat = E.flatten(ht)
         f2 = crate.fns[q2]
         w2 = f"{crate.relfile(f2['file'])} fn {f2['name']} (template at {ht[1]})"
         s2 = ogp.summaries[q2]
@@ -274,7 +276,7 @@ def run(rep):
         rep.check(okp, 'C07.D.step-mode-params', 'step-mode-params', w2,
                   f'step-mode parameters are not declared by the same iteration (same order, same identifier) as the layout expressions: {detail}',
                   ok_detail='one `p: wgpu::VertexStepMode` per layout expression, same iteration')
-        nn = hole_after_seq(ht, '-> VertexEntry <')
+        nn = hole_after_seq(ht_flat, '-> VertexEntry <')
         okn = nn is not None and nn[0] == 'call' and nn[1].startswith('Literal::') and nn[2][0][0] == 'mcall' and nn[2][0][2] == 'len' and same_star(nn[2][0][1], l)
         rep.check(okn, 'C07.D.buffer-count', 'buffer-count', w2, f'VertexEntry<N>: N is {E.show(nn, maxdepth=5) if nn else None}; expected the length of the same argument list', ok_detail='N = number of struct arguments')
     rep.analysed = {'impl_function': q, 'helper_functions': [x[0] for x in eh]}
